@@ -340,7 +340,20 @@ fn run(ctx: &mut Ctx) {
                 l.n_files = 2 + rng.below(2) as u8;
             }
         }
-        let files = proj.render();
+        let mut files = proj.render();
+        // half of the projects: every file imports only the packages it mentions itself
+        // (the package's import set is then the union over its files, no single file has it)
+        if rng.bool() {
+            for (_, text) in files.iter_mut() {
+                let imports: Vec<String> = text.lines().filter(|l| l.starts_with("import ")).map(|l| l.to_string()).collect();
+                for imp in imports {
+                    let pkg = imp.trim_start_matches("import ").trim().to_string();
+                    if !text.contains(&format!("{}::", pkg)) {
+                        *text = text.replacen(&format!("{}\n", imp), "", 1);
+                    }
+                }
+            }
+        }
         let root = scratch.join(format!("c14p-{}-{}", ctx.shard, i));
         let art = scratch.join(format!("c14p-{}-{}-art", ctx.shard, i));
         let order: Vec<usize> = (0..files.len()).collect();
